@@ -16,6 +16,7 @@ import (
 // if the rest of the block is dead (unsupported).
 func (f *Frame) exec(ins ssa.Instruction, st *State) bool {
 	c := f.c
+	f.anchoredAsserts(ins, st)
 	switch x := ins.(type) {
 	case *ssa.DebugRef:
 		return true
@@ -1132,4 +1133,57 @@ func (f *Frame) next(x *ssa.Next, st *State) Val {
 		c.heapSet(st, "IterCount", "(store "+c.heapGet(st, "IterCount", "(Array Int Int)")+" "+it.T+" "+ite(q(okn), "(+ "+cnt+" 1)", cnt)+")")
 	}
 	return Val{Typ: x.Type(), Tup: []Val{{T: q(okn), Typ: tup.At(0).Type()}, kv, {T: val, Typ: mt.Elem()}}}
+}
+
+
+// anchoredAsserts: an "assert ... before "text" :: e" clause of the contract
+// becomes an obligation at the first instruction of the statement whose
+// source text starts with text (only in the function under verification, not
+// in inlined callees).
+func (f *Frame) anchoredAsserts(ins ssa.Instruction, st *State) {
+	if !f.top || f.contract == nil || len(f.contract.Asserts) == 0 {
+		return
+	}
+	switch ins.(type) {
+	case *ssa.MapUpdate, *ssa.Store, ssa.CallInstruction, *ssa.Return:
+	default:
+		return
+	}
+	pos := ins.Pos()
+	if r, ok := ins.(*ssa.Return); ok {
+		pos = r.Pos()
+	}
+	if !pos.IsValid() {
+		return
+	}
+	c := f.c
+	txt := strings.TrimSpace(c.W.sourceSnippet(pos))
+	for _, a := range f.contract.Asserts {
+		if !strings.HasPrefix(txt, a.At) {
+			continue
+		}
+		key := a.Tag + "@" + txt
+		if f.assertDone == nil {
+			f.assertDone = map[string]bool{}
+		}
+		if f.assertDone[key] {
+			continue
+		}
+		f.assertDone[key] = true
+		env := f.specEnv(st, f.entry)
+		env.at = f.curBlock
+		env.goal = true
+		f.atInstr = instrIndex(ins)
+		t, err := env.boolTerm(a.E)
+		f.atInstr = -1
+		if err != nil {
+			c.unsupported("assert %q: %v", a.Text, err)
+			continue
+		}
+		name := a.Tag
+		if name == "" {
+			name = a.At
+		}
+		f.oblige("assert", name, t, pos, a.Text)
+	}
 }
